@@ -622,7 +622,14 @@ class Parser(object):
         """
         # The END_OF_INPUT token is explicitly added to avoid explicit "cursor <
         # len(tokens)" checks.
-        tokens = list(tokens) + [Symbol(END_OF_INPUT)]
+        tokens = list(tokens)
+        end_location = None
+        for token in reversed(tokens):
+            if getattr(token, "source_location", None):
+                end = token.source_location.end
+                end_location = parser_types.SourceLocation(end, end)
+                break
+        tokens.append(parser_types.Token(END_OF_INPUT, "", end_location))
 
         # Each element of stack is a parse state and a (possibly partial) parse
         # tree.  The state at the top of the stack encodes which productions are
